@@ -689,6 +689,15 @@ namespace fsh
             auto area = l.ndbls(n);
             auto elevv = l.ndbls(n);
             int reps = l.more() ? static_cast<int>(l.nint()) : 1;
+            // optional setter calls applied to a FRESH eroder before it erodes: set:n:<v> (slope
+            // exponent), set:m:<v> (area exponent)
+            std::vector<std::pair<char, double>> setters;
+            while (l.more())
+            {
+                std::string t = l.next();
+                if (t.rfind("set:", 0) == 0 && t.size() > 6)
+                    setters.push_back({ t[4], unhex(t.substr(6)) });
+            }
             os << "I spl " << kk;
             if (kk == "s")
                 os << ' ' << hexd(ks);
@@ -709,7 +718,7 @@ namespace fsh
                 for (auto x : kv)
                     sig << ' ' << hexd(x);
                 sig << ' ' << hexd(m) << ' ' << hexd(nn) << ' ' << hexd(tol);
-                if (!spl_obj || sig.str() != spl_sig)
+                if (!spl_obj || sig.str() != spl_sig || !setters.empty())
                 {
                     spl_obj.reset();
                     spl_sig.clear();
@@ -726,6 +735,35 @@ namespace fsh
                 else
                     os << "O spl_new 0\n";
                 auto& er = spl_obj;
+                bool rejected = false;
+                for (std::size_t si = 0; si < setters.size(); ++si)
+                {
+                    try
+                    {
+                        if (setters[si].first == 'n')
+                            er->set_slope_exp(setters[si].second);
+                        else
+                            er->set_area_exp(setters[si].second);
+                        os << "O splset" << si << " ok\n";
+                    }
+                    catch (const std::exception& ex)
+                    {
+                        os << "O splset" << si << " err " << errkind(ex) << "\n";
+                        rejected = true;
+                    }
+                }
+                if (!setters.empty())
+                {
+                    // what the object now reports; after a refused setter nothing is eroded (the
+                    // object is in no configuration the library supports)
+                    os << "O spl_eff " << hexd(er->area_exp()) << ' ' << hexd(er->slope_exp()) << "\n";
+                    spl_sig.clear();
+                    if (rejected)
+                    {
+                        spl_obj.reset();
+                        return;
+                    }
+                }
                 arr a = make_arr(area);
                 arr e = make_arr(elevv);
                 for (int r = 0; r < reps; ++r)
